@@ -10,6 +10,8 @@ from rules import roles
 from engine.util import own_nodes, calls_with_nodes, where, optional_numeric_params, truthiness_uses
 
 RULES = {
+    "R-13.9": "records that may share an owner with a CNAME survive a transfer in any record order: the node exclusivity filter and its type tables are those of RFC 4035 2.5 / RFC 3007 (C09 R-09.3 adopted)",
+    "R-13.8": "RFC 8945 allows unsigned messages between signed ones: neither _inbound_xfr twin demands a TSIG on every message - the `had_tsig` refusal is not inside the receive loop (unless it is tied to the last message)",
     "R-13.7": "a transfer is applied through one write transaction of the zone: on a versioned zone a refresh is admitted after an earlier overlapping one only if the writer admission protocol holds (C12 R-12.3 adopted)",
     "R-13.6": "a rejected transfer into a B-tree zone leaves it untouched only if the B-tree never writes a node shared with the published version (C19 R-19.1 adopted); a signed AXFR parses however the stream is cut into messages only if Message.find_rrset keys RRsets by covered type too (C03 R-03.4 index-key adopted)",
     "R-13.5": "an IXFR deletion removes exactly the addressed rdataset: the Version operations use every part of their (name, type, covers) key (C10 R-10.5 adopted)",
@@ -223,6 +225,20 @@ def run(model, rep, tier):
     rep.ok("R-13.4", "dns.xfr", "-", f"{n_opt} optional numeric parameters are only ever tested with `is None` / `is not None`", stmt="presence-tests")
     rep.share(model, "C19", {"R-19.1"}, "R-13.6", "Inbound applies the transfer to a writable version that is a copy-on-write clone of the published B-tree")
     rep.share(model, "C03", {"R-03.4"}, "R-13.6", "every transfer message is parsed by the wire reader, which files RRSIGs of one owner by covered type", only=lambda o: o.stmt in ("index-key", "question-unique") or o.stmt.startswith("hook"))
+    for qn in ("dns.query._inbound_xfr", "dns.asyncquery._inbound_xfr"):
+        fx = model.func(qn)
+        loops8 = [l_ for l_ in ast.walk(fx.node) if isinstance(l_, ast.While)]
+        bad8 = []
+        for l_ in loops8:
+            for n in ast.walk(l_):
+                if isinstance(n, ast.If) and any(isinstance(b, ast.Raise) for b in n.body):
+                    at8 = atoms(normalise_compare(n.test))
+                    if any(a[0].endswith(".had_tsig") for a in at8) and not any(a[0] == "done" for a in at8):
+                        bad8.append(n)
+        rep.check(bool(loops8) and not bad8, "R-13.8", qn, where(fx, bad8[0] if bad8 else fx.node), "no per-message TSIG requirement inside the receive loop",
+                  f"`{src(bad8[0].test)[:60]}` refuses, inside the receive loop, any message without a TSIG: a valid transfer with an unsigned intermediate message (RFC 8945 5.3.1) is rejected and the zone "
+                  "never converges" if bad8 else "receive loop not found", stmt="unsigned-intermediate-accepted")
+    rep.share(model, "C09", {"R-09.3"}, "R-13.9", "Inbound stores every record through txn.add/replace -> Node._append_rdataset", only=lambda o: o.stmt in ("node-filter", "node-filter-tables", "classify"))
     rep.share(model, "C12", {"R-12.3"}, "R-13.7", "Inbound opens txn_manager.writer(); a stale admission event blocks every later transfer for ever")
     rep.share(model, "C10", {"R-10.5", "R-10.9"}, "R-13.5", "IXFR deletions address an rdataset by (name, rdtype, covers); a dropped component leaves stale RRSIGs in the zone")
     rep.meta["explanation"] = (
